@@ -11,7 +11,7 @@ KINDS = {
     'C03': ['ExecuteMatch'],
     'C04': REVERSALS,
     'C05': FUND_MOVERS,
-    'C08': ['ApproveAsk', 'ExecuteMatch', 'RejectAskNone', 'RejectAskSome', 'ExpireAsk', 'CancelAsk'],
+    'C08': ['ApproveAsk', 'CreateAsk', 'ExecuteMatch', 'RejectAskNone', 'RejectAskSome', 'ExpireAsk', 'CancelAsk'],
     'C09': ['CreateBid', 'ExecuteMatch', 'RejectBidNone', 'RejectBidSome', 'CancelBid', 'ExpireBid'],
     'C10': FUND_MOVERS,
     'C17': FUND_MOVERS,
@@ -21,6 +21,8 @@ KINDS = {
 
 
 UNIFORM_MARKERS_IN_QUICK = ('C03', 'C05', 'C09', 'C17')
+INV_ESTABLISHED_BY = {'C02': ['CreateAsk', 'CreateBid', 'ApproveAsk'], 'C03': ['CreateAsk', 'CreateBid', 'ApproveAsk'], 'C04': ['CreateAsk', 'CreateBid', 'ApproveAsk'],
+                      'C09': ['CreateAsk', 'ApproveAsk'], 'C10': []}
 
 
 def specs_c11(tier):
@@ -35,7 +37,7 @@ def specs_c11(tier):
             continue            # the frame does not depend on the transfer mechanism: one marker assignment
         if s['kind'] in ('CreateAsk', 'CreateBid') and s['nfunds'] == 2:
             continue
-        s = dict(s, extra_ask='Ready' if s['ask'] != 'Ready' else 'Basic', extra_bid=not s['bidfee'])
+        s = dict(s, extra_ask='Ready' if s['ask'] != 'Ready' else 'Basic', extra_bid=not s['bidfee'], n_conv=2 if s['kind'] in ('CreateAsk', 'ApproveAsk') else s['n_conv'])
         out.append(s)
     return out
 
@@ -45,6 +47,9 @@ def run(pid, tier, seed, jobs=None, only=None):
         kinds = [k for k in KINDS[pid] if not only or k in only]
         specs = ST.specs_for(kinds, tier)
         extra = []
+        if pid in INV_ESTABLISHED_BY and not only:
+            # these per-operation statements are decided over Inv books: the requests that put orders on the book must establish Inv
+            specs = specs + ST.specs_for([k for k in INV_ESTABLISHED_BY[pid] if k not in kinds], tier, funds_variants=False)
         if tier == 'quick' and pid in UNIFORM_MARKERS_IN_QUICK:
             # these statements do not mention the transfer mechanism: quick explores the two uniform marker assignments of each match
             # shape (mixed assignments are explored by C01/C02/C10 in quick and by every property in thorough)
